@@ -116,11 +116,10 @@ def hash_contraction(inputs, output, size_dict, optimize, **kwargs):
     output = tuple(output)
     optimize = hash_prepare_optimize(optimize)
     kwargs = frozenset(kwargs.items())
-    return (
-        hash((inputs, output, tuple(size_dict.items()), optimize, kwargs)),
-        # add this as a basic way to decrease collisions
-        len(inputs),
-    )
+    # n.b. the key is the tuple itself rather than its ``hash``: distinct
+    # contractions can share a hash (e.g. ``hash(-1) == hash(-2)``) and must
+    # not be served each other's cache entry
+    return (inputs, output, tuple(size_dict.items()), optimize, kwargs)
 
 
 def normalize_input(
